@@ -21,7 +21,7 @@ from checks.c15 import fork_bool, fork_choice
 PID = "C17"
 BOUNDS = ("path = k segments (k<=4 quick; thorough adds k=5 for 10 seeded length vectors of the first three segments per route and spelling), each 0..3 chars over {. q z _}; spelling in "
           "{relative, absolute under the working directory, double-slash absolute}; root directory name 2 chars over {q z _} "
-          "directly below the working directory (or one level deeper); routes POST /script, /lineage, /directory with f or d, "
+          "directly below the working directory (or one level deeper); routes POST /script, /lineage, /directory with f or d, or with BOTH (2+2 segments quick, 2+3 / 3+2 thorough, five spelling pairs, either key order), "
           "GET /<path>; POSIX paths, no symlinks")
 STUBS = ["pathlib.Path, os, open, json, mimetypes as seen by sqllineage.drawing and sqllineage.utils.helpers -> LxPath model "
          "(worst-case environment: every path exists and can be read)",
@@ -73,10 +73,13 @@ class PathOb(Obligation):
     max_paths = 300000
     budget_s = 3000
 
-    def __init__(self, method, route, param, form, k, deep_root=False, lens=None):
+    def __init__(self, method, route, param, form, k, deep_root=False, lens=None, f_first=False):
         self.method, self.route, self.param, self.form, self.k, self.deep_root, self.lens = method, route, param, form, k, deep_root, lens
-        self.key = "%s%s/%s/%s/k%d%s%s" % (method, route or "/<path>", param or "-", form, k, "/deeproot" if deep_root else "",
-                                         ("/len" + "".join("%d=%d," % kv for kv in sorted(lens.items()))) if lens else "")
+        self.f_first = f_first
+        fk = lambda x: "+".join(map(str, x)) if isinstance(x, tuple) else str(x)
+        self.key = "%s%s/%s/%s/k%s%s%s%s" % (method, route or "/<path>", param or "-", fk(form), fk(k), "/deeproot" if deep_root else "",
+                                           ("/len" + "".join("%d=%d," % kv for kv in sorted(lens.items()))) if lens else "",
+                                           "/f-first" if f_first else "")
 
     def describe(self):
         return {"key": self.key, "method": self.method, "route": self.route, "param": self.param, "spelling": self.form,
@@ -116,17 +119,28 @@ class PathOb(Obligation):
         P, dr = self.P, self.dr
         cwd = "/" + "/".join(P.CWD)
         rootname = SymStr.var("root", 2, ROOT_ALPHA)
-        segs = []
-        for i in range(self.k):
-            n = self.lens[i] if (self.lens and i in self.lens) else fork_choice("len%d" % i, 4)
-            segs.append(SymStr.var("seg%d" % i, n, SEG_ALPHA) if n else SymStr.const(""))
-        tail = SymStr.const("/").join(segs)
-        if self.form == "rel":
-            text = tail
-        elif self.form == "abs":
-            text = SymStr.const(cwd + "/") + tail
+
+        def spell(tag, k, form, lens):
+            segs = []
+            for i in range(k):
+                n = lens[i] if (lens and i in lens) else fork_choice("%slen%d" % (tag, i), 4)
+                segs.append(SymStr.var("%sseg%d" % (tag, i), n, SEG_ALPHA) if n else SymStr.const(""))
+            tail = SymStr.const("/").join(segs)
+            if form == "rel":
+                return tail
+            if form == "abs":
+                return SymStr.const(cwd + "/") + tail
+            return SymStr.const("/" + cwd + "/") + tail
+
+        if self.param == "df":
+            # both parameters in one request, each spelled independently
+            payload = {"d": spell("d", self.k[0], self.form[0], None), "f": spell("f", self.k[1], self.form[1], None)}
+            if self.f_first:
+                payload = {"f": payload["f"], "d": payload["d"]}
+            text = None
         else:
-            text = SymStr.const("/" + cwd + "/") + tail
+            text = spell("", self.k, self.form, self.lens)
+            payload = {self.param: text}
         app = dr.SQLLineageApp()
         for path, h in dr.app.routes.items():
             app.routes[path] = h
@@ -140,7 +154,6 @@ class PathOb(Obligation):
         P.EVENTS.clear()
         P.KNOWN_DIRS[:] = [P.LxPath(cwd), root]
         if self.method == "POST":
-            payload = {self.param: text}
             js = JsonShim(payload)
             dr.json = js
             environ = {"REQUEST_METHOD": "POST", "PATH_INFO": self.route, "CONTENT_LENGTH": "2", "wsgi.input": _Body()}
@@ -164,6 +177,7 @@ class PathOb(Obligation):
                     bad = (kind, str(p))
                     break
         return Verdict(bad is None, {"method": self.method, "route": self.route, "param": self.param, "text": environ["PATH_INFO"] if self.method == "GET" else text,
+                                     "payload": dict(payload) if self.method == "POST" else None,
                                      "rootname": rootname, "deep_root": self.deep_root, "status": status[:1], "event": bad,
                                      "escaped": escaped},
                        nontrivial=bool(P.EVENTS))
@@ -237,12 +251,19 @@ try:
             open(os.path.join(cur, MARK + ".sql"), "w").write("select 1 from " + MARK)
         return cur
     if c["method"] == "POST":
-        if c["route"] == "/directory":
-            plant(os.path.dirname(text) if c["param"] == "f" and False else (str(__import__("pathlib").PurePosixPath(text).parent) if c["param"] == "f" else text), True)
-        else:
-            plant(text, False)
+        payload = c["payload"]
+        for prm, txt in payload.items():
+            try:
+                if prm == "d":
+                    plant(txt, True)
+                elif c["route"] == "/directory":
+                    plant(str(__import__("pathlib").PurePosixPath(txt).parent), True)
+                else:
+                    plant(txt, False)
+            except OSError:
+                pass  # d and f ask for a directory and a file at one place: the environment cannot be worst-case for both
         dr.app.root_path = __import__("pathlib").Path(rootdir)
-        body = json.dumps({c["param"]: text}).encode()
+        body = json.dumps(payload).encode()
         env = {"REQUEST_METHOD": "POST", "PATH_INFO": c["route"], "CONTENT_LENGTH": str(len(body)), "wsgi.input": io.BytesIO(body)}
     else:
         # GET: whatever the path resolves to relative to the static folder or, if absolute, by itself
@@ -274,7 +295,7 @@ try:
     finally:
         tried, sys._lx_audit = sys._lx_audit, None
     blob = b"".join(out)
-    norm = lambda p: os.path.normpath(os.path.join(CWD, p))
+    norm = lambda p: "/" + os.path.normpath(os.path.join(CWD, p)).lstrip("/")  # POSIX normpath keeps a leading '//'
     allowed = rootdir if c["method"] == "POST" else os.path.join(os.path.dirname(dr.__file__), "build")
     CONFIG_NAMES = (".sqlfluff", "setup.cfg", "tox.ini", "pep8.ini", "pyproject.toml", ".sqlfluffignore")
     # what counts: open() of a non-directory and scandir() (pathlib's iterdir); sqlfluff's own configuration
@@ -284,7 +305,18 @@ try:
                and os.path.basename(p) not in CONFIG_NAMES
                and not (ev == "open" and os.path.isdir(norm(p)))
                and (norm(p).startswith(SCRATCH) or (c["event"] and norm(p) == norm(c["event"][1])))]
-    result = {"status": st[0] if st else None, "leak": MARK.encode() in blob or bool(outside), "content_leak": MARK.encode() in blob,
+    # a 200 answer of /directory names the directory it listed (pathlib lists through os.listdir, which the filter above
+    # cannot tell from sqlfluff's configuration discovery)
+    listed_outside = None
+    if c["method"] == "POST" and c["route"] == "/directory" and st and st[0].startswith("200"):
+        try:
+            listed = norm(json.loads(blob)["id"])
+            if not (listed == allowed or listed.startswith(allowed + "/")):
+                listed_outside = listed
+        except (ValueError, KeyError):
+            pass
+    result = {"status": st[0] if st else None, "leak": MARK.encode() in blob or bool(outside) or listed_outside is not None,
+              "content_leak": MARK.encode() in blob, "listed_outside": listed_outside,
               "outside_io_attempted": outside[:3], "body": blob[:200].decode("utf-8", "replace")}
 finally:
     os.chdir(old)
@@ -313,4 +345,12 @@ def obligations(tier, seed):
         if tier == "thorough":
             obs.append(PathOb(m, r, p, "rel", 4, deep_root=True))
             obs.append(PathOb(m, r, p, "dslash", 4, deep_root=True))
+    # both parameters in one request (the routes prefer f, the guard must check each one present)
+    pairs = [("rel", "rel"), ("abs", "abs"), ("rel", "abs"), ("abs", "rel"), ("dslash", "rel")]
+    for r in ("/script", "/lineage", "/directory"):
+        for i, fm in enumerate(pairs):
+            obs.append(PathOb("POST", r, "df", fm, (2, 2), f_first=bool(i % 2)))
+            if tier == "thorough":
+                obs.append(PathOb("POST", r, "df", fm, (2, 3), f_first=not i % 2))
+                obs.append(PathOb("POST", r, "df", fm, (3, 2), f_first=bool(i % 2)))
     return obs
